@@ -99,7 +99,7 @@ __CPROVER_requires(IORA_TRUE && iora_exc == EXC_NONE && size <= DN_MAX_MSG && of
 __CPROVER_requires(__CPROVER_is_fresh(question, sizeof(*question)) && G_msg_size == size)
 __CPROVER_assigns(iora_exc, *question, G_name_end, G_name_start)
 /* Q1 QNAME (ending at G_name_end) is followed by exactly QTYPE(2) QCLASS(2); the question ends inside the message */
-__CPROVER_ensures(iora_exc == EXC_NONE ==> (__CPROVER_return_value <= size && __CPROVER_return_value == G_name_end + 4 && G_name_end >= offset && G_name_start == offset))
+__CPROVER_ensures(iora_exc == EXC_NONE ==> (__CPROVER_return_value <= size && __CPROVER_return_value == G_name_end + 4 && G_name_end > offset && G_name_end <= size && G_name_start == offset))
 /* Q2 QTYPE and QCLASS are the big-endian 16-bit fields right after the name */
 __CPROVER_ensures(iora_exc == EXC_NONE ==> question->qtype == U16BE(data, G_name_end))
 __CPROVER_ensures(iora_exc == EXC_NONE ==> question->qclass == U16BE(data, G_name_end + 2))
@@ -128,7 +128,7 @@ __CPROVER_requires(__CPROVER_is_fresh(rdataOffset, sizeof(*rdataOffset)))
 __CPROVER_assigns(iora_exc, *rr, *rdataOffset, G_name_end, G_name_start)
 /* R1 NAME (ending at G_name_end) is followed by the 10 fixed octets, then RDATA; the record ends inside the message exactly
  *    RDLENGTH octets after the start of RDATA */
-__CPROVER_ensures(iora_exc == EXC_NONE ==> (G_name_start == offset && G_name_end >= offset && *rdataOffset == G_name_end + 10 && __CPROVER_return_value == *rdataOffset + rr->rdlength && __CPROVER_return_value <= size))
+__CPROVER_ensures(iora_exc == EXC_NONE ==> (G_name_start == offset && G_name_end > offset && G_name_end <= size && *rdataOffset == G_name_end + 10 && *rdataOffset <= size && __CPROVER_return_value == *rdataOffset + rr->rdlength && __CPROVER_return_value <= size))
 /* R2 fixed fields bit-exact */
 RR_FIELDS(rr)
 /* R3 RDATA is exactly the RDLENGTH octets at rdataOffset (so [rdataOffset, rdataOffset + rdata.size()) lies inside the message) */
@@ -142,12 +142,40 @@ __CPROVER_ensures((size < 11 || offset > size - 11) ==> iora_exc != EXC_NONE)
 size_t parseResourceRecord4_contract(const uint8_t *data, size_t offset, size_t size, DnsResourceRecord *rr)
 RR_PRE
 __CPROVER_assigns(iora_exc, *rr, G_name_end, G_name_start)
-__CPROVER_ensures(iora_exc == EXC_NONE ==> (G_name_start == offset && G_name_end >= offset && __CPROVER_return_value == G_name_end + 10 + rr->rdlength && __CPROVER_return_value <= size))
+__CPROVER_ensures(iora_exc == EXC_NONE ==> (G_name_start == offset && G_name_end > offset && G_name_end <= size && __CPROVER_return_value == G_name_end + 10 + rr->rdlength && __CPROVER_return_value <= size))
 RR_FIELDS(rr)
 __CPROVER_ensures(iora_exc == EXC_NONE ==> (rr->rdata.n == rr->rdlength && rr->rdata.p == data + (G_name_end + 10)))
 __CPROVER_ensures(iora_exc == EXC_NONE ==> rr->name.n <= RFC_MAX_TEXT)
 __CPROVER_ensures(iora_exc == EXC_NONE || iora_exc == EXC_DnsParseException)
 __CPROVER_ensures((size < 11 || offset > size - 11) ==> iora_exc != EXC_NONE)
+;
+
+/* ------------------------------------------------------------------------------------------------------------------
+ * CORE forms for use in DnsMessage::parse: a SUBSET of the proved clauses above (same text; dropping ensures clauses of a proved
+ * contract is sound). parse needs offsets, frames and error types, not the field values - and every assumed field equality costs
+ * solver time at each of its three call sites (measured: 60 s per record loop with the full contract). */
+size_t parseHeader_core_contract(const uint8_t *data, size_t offset, size_t size, DnsHeader *header)
+__CPROVER_requires(IORA_TRUE && iora_exc == EXC_NONE && size <= DN_MAX_MSG && offset <= size && __CPROVER_is_fresh(data, size))
+__CPROVER_requires(__CPROVER_is_fresh(header, sizeof(*header)))
+__CPROVER_assigns(iora_exc, *header)
+/* H1 */ __CPROVER_ensures((size < 12 || offset > size - 12) ==> iora_exc == EXC_DnsParseException)
+/* H2 */ __CPROVER_ensures((size >= 12 && offset <= size - 12) ==> iora_exc == EXC_NONE)
+__CPROVER_ensures(iora_exc == EXC_NONE ==> __CPROVER_return_value == offset + 12)
+;
+size_t parseQuestion_core_contract(const uint8_t *data, size_t offset, size_t size, DnsQuestion *question)
+__CPROVER_requires(IORA_TRUE && iora_exc == EXC_NONE && size <= DN_MAX_MSG && offset <= size && __CPROVER_is_fresh(data, size))
+__CPROVER_requires(__CPROVER_is_fresh(question, sizeof(*question)) && G_msg_size == size)
+__CPROVER_assigns(iora_exc, *question, G_name_end, G_name_start)
+/* Q1 */ __CPROVER_ensures(iora_exc == EXC_NONE ==> (__CPROVER_return_value <= size && __CPROVER_return_value == G_name_end + 4 && G_name_end > offset && G_name_end <= size && G_name_start == offset))
+/* Q4 */ __CPROVER_ensures(iora_exc == EXC_NONE || iora_exc == EXC_DnsParseException)
+;
+size_t parseResourceRecord5_core_contract(const uint8_t *data, size_t offset, size_t size, DnsResourceRecord *rr, size_t *rdataOffset)
+RR_PRE
+__CPROVER_requires(__CPROVER_is_fresh(rdataOffset, sizeof(*rdataOffset)))
+__CPROVER_assigns(iora_exc, *rr, *rdataOffset, G_name_end, G_name_start)
+/* R1 */ __CPROVER_ensures(iora_exc == EXC_NONE ==> (G_name_start == offset && G_name_end > offset && G_name_end <= size && *rdataOffset == G_name_end + 10 && *rdataOffset <= size && __CPROVER_return_value == *rdataOffset + rr->rdlength && __CPROVER_return_value <= size))
+/* R3 */ __CPROVER_ensures(iora_exc == EXC_NONE ==> (rr->rdata.n == rr->rdlength && rr->rdata.p == data + *rdataOffset))
+/* R5 */ __CPROVER_ensures(iora_exc == EXC_NONE || iora_exc == EXC_DnsParseException)
 ;
 
 /* ------------------------------------------------------------------------------------------------------------------
